@@ -121,6 +121,15 @@ var Snippets = []Snippet{
 	{[]string{"D"}, "var kd${N} = map[int]int{${D}DotV: ${D}DotF()}"},
 	{[]string{"A"}, "func kf${N}() int {\n\ttype s struct{ V, C int }\n\tx := s{V: ${A}V, C: ${A}C}\n\treturn x.V + x.C\n}"},
 	{nil, "var lk${N} = map[int]string{Exported: \"e\", Helper(): \"h\"}"},
+	// references that occur only in type positions: constraints of generic types and functions,
+	// union terms, instantiations, function types, channel element types
+	{[]string{"A"}, "type gt${N}[T ${A}I] struct{ v T }"},
+	{[]string{"A"}, "func gf${N}[T ${A}I](x T) int {\n\treturn x.M()\n}"},
+	{[]string{"C"}, "type gu${N} interface{ ~int8 | ${C}K }"},
+	{[]string{"A", "B"}, "type al${N} = ${A}G[${B}U]"},
+	{[]string{"A", "E"}, "var fn${N} func(${E}Opt) ${A}T"},
+	{[]string{"B"}, "type ch${N} chan ${B}U"},
+	{[]string{"D"}, "type gd${N}[T interface{ DM() int }] struct {\n\tv T\n\tw []func(${D}DotT) *${D}DotT\n}"},
 }
 
 // FileSpec describes how one file of the main package names the libraries.
